@@ -2,9 +2,11 @@ package checks
 
 import (
 	"fmt"
+	"go/ast"
 	"go/token"
 	"go/types"
 	"math/big"
+	"strings"
 
 	"golang.org/x/tools/go/packages"
 
@@ -169,6 +171,7 @@ func checkC05(c *core.Ctx) error {
 		}
 	}
 	checkCholeskyRun(c, d)
+	checkRotationOffsets(c)
 	return nil
 }
 
@@ -256,6 +259,191 @@ func checkCholeskyRun(c *core.Ctx, d *declIndex) {
 				c.Check(bad == "", "C05.R3", cons, "factors multiply back to the input "+tag, fd.Pos(), bad)
 			}
 			c.Check(nGood == 1, "C05.R3", cons, "exactly one success path "+tag, fd.Pos(), fmt.Sprintf("%d success paths", nGood))
+		}
+	}
+}
+
+// checkRotationOffsets (C05.R4): the implicit-shift steps of the SVD and of the symmetric QR algorithm work on a
+// diagonal block B[p:e, p:e] that they receive as a slice together with its origin p, and accumulate the rotations into
+// the full orthogonal factors. A rotation applied to rows/columns (i0, j0) of the block therefore has to be applied to
+// rows/columns (p + i0, p + j0) of the accumulators; otherwise the product of the returned factors is no longer the
+// input. The roles (block, accumulators, origin) are fixed per function by parameter position, confirmed by reading.
+var rotationRoles = []struct {
+	pkg, fn string
+	block   int   // parameter index of the block
+	accs    []int // parameter indices of the accumulated factors
+	origin  int   // parameter index of the block origin
+}{
+	{"algorithm/svd", "golubKahanSVDstep", 0, []int{1, 2}, 3},
+	{"algorithm/qrAlgorithm", "symmetricQRstep", 0, []int{1}, 2},
+}
+
+func checkRotationOffsets(c *core.Ctx) {
+	c.Rule("C05.R4", "in the implicit-shift steps (SVD, symmetric QR) a rotation applied to rows/columns (i, j) of the block is accumulated at (origin + i, origin + j) of the full factors", 3)
+	for _, role := range rotationRoles {
+		p := c.Pkg(role.pkg)
+		cons := role.pkg + "." + role.fn
+		if p == nil {
+			c.Unknown("C05.R4", cons, "package loaded", token.NoPos, "not loaded")
+			continue
+		}
+		fd := findFuncDecl(p, role.fn)
+		if fd == nil {
+			c.Unknown("C05.R4", cons, "function found", token.NoPos, "not found")
+			continue
+		}
+		info := p.TypesInfo
+		var params []types.Object
+		for _, f := range fd.Type.Params.List {
+			for _, nm := range f.Names {
+				params = append(params, info.Defs[nm])
+			}
+		}
+		if role.block >= len(params) || role.origin >= len(params) {
+			c.Unknown("C05.R4", cons, "parameters as reviewed", fd.Pos(), "the function's parameter list changed: roles have to be re-confirmed")
+			continue
+		}
+		isAcc := map[types.Object]bool{}
+		for _, a := range role.accs {
+			if a < len(params) {
+				isAcc[params[a]] = true
+			}
+		}
+		// linear forms over identifiers
+		type lin map[types.Object]int
+		var linOf func(e ast.Expr) (lin, int, bool)
+		linOf = func(e ast.Expr) (lin, int, bool) {
+			switch v := ast.Unparen(e).(type) {
+			case *ast.Ident:
+				if o := info.Uses[v]; o != nil {
+					return lin{o: 1}, 0, true
+				}
+			case *ast.BasicLit:
+				var x int
+				if _, err := fmt.Sscanf(v.Value, "%d", &x); err == nil {
+					return lin{}, x, true
+				}
+			case *ast.BinaryExpr:
+				a, ca, ok1 := linOf(v.X)
+				b, cb, ok2 := linOf(v.Y)
+				if ok1 && ok2 && (v.Op == token.ADD || v.Op == token.SUB) {
+					r := lin{}
+					for k, x := range a {
+						r[k] += x
+					}
+					sg := 1
+					if v.Op == token.SUB {
+						sg = -1
+					}
+					for k, x := range b {
+						r[k] += sg * x
+					}
+					return r, ca + sg*cb, true
+				}
+			}
+			return nil, 0, false
+		}
+		same := func(a lin, ca int, b lin, cb int) bool {
+			if ca != cb {
+				return false
+			}
+			for k, x := range a {
+				if b[k] != x {
+					return false
+				}
+			}
+			for k, x := range b {
+				if a[k] != x {
+					return false
+				}
+			}
+			return true
+		}
+		type app struct {
+			i, j   lin
+			ci, cj int
+			pos    token.Pos
+			text   string
+		}
+		var blockApps, accApps []app
+		ast.Inspect(fd.Body, func(x ast.Node) bool {
+			ce, ok := x.(*ast.CallExpr)
+			if !ok || !strings.HasPrefix(calleeName(ce), "Apply") || len(ce.Args) < 5 {
+				return true
+			}
+			id, ok := ast.Unparen(ce.Args[0]).(*ast.Ident)
+			if !ok {
+				return true
+			}
+			o := info.Uses[id]
+			li, ci, ok1 := linOf(ce.Args[3])
+			lj, cj, ok2 := linOf(ce.Args[4])
+			if !ok1 || !ok2 {
+				return true
+			}
+			a := app{li, lj, ci, cj, ce.Pos(), exprStr(ce)}
+			switch {
+			case o == params[role.block]:
+				blockApps = append(blockApps, a)
+			case isAcc[o]:
+				accApps = append(accApps, a)
+			}
+			return true
+		})
+		if len(blockApps) == 0 || len(accApps) == 0 {
+			c.Unknown("C05.R4", cons, "rotations on the block and on the accumulators found", fd.Pos(), fmt.Sprintf("%d block, %d accumulator applications", len(blockApps), len(accApps)))
+			continue
+		}
+		// caller side: the block passed is X.Slice(a, _, a, _) and the origin argument is that a
+		core.EachFunc(p, func(_ *ast.File, cfd *ast.FuncDecl) {
+			ast.Inspect(cfd.Body, func(x ast.Node) bool {
+				ce, ok := x.(*ast.CallExpr)
+				if !ok || calleeName(ce) != role.fn || len(ce.Args) <= role.origin {
+					return true
+				}
+				blk := ast.Unparen(ce.Args[role.block])
+				if id, ok := blk.(*ast.Ident); ok {
+					o := info.Uses[id]
+					ast.Inspect(cfd.Body, func(y ast.Node) bool {
+						if as, ok := y.(*ast.AssignStmt); ok && len(as.Lhs) == 1 && len(as.Rhs) == 1 && as.Pos() < ce.Pos() {
+							if l, ok := as.Lhs[0].(*ast.Ident); ok && (info.Defs[l] == o || info.Uses[l] == o) {
+								blk = ast.Unparen(as.Rhs[0])
+							}
+						}
+						return true
+					})
+				}
+				sl, ok := blk.(*ast.CallExpr)
+				okCall := false
+				if ok && strings.HasSuffix(calleeName(sl), "Slice") && len(sl.Args) == 4 {
+					r, cr, ok1 := linOf(sl.Args[0])
+					cc, ccc, ok2 := linOf(sl.Args[2])
+					og, cog, ok3 := linOf(ce.Args[role.origin])
+					okCall = ok1 && ok2 && ok3 && same(r, cr, og, cog) && same(cc, ccc, og, cog)
+				}
+				c.Check(okCall, "C05.R4", c.FuncName(p, cfd), "calls "+role.fn+" with the diagonal block starting at the origin it passes", ce.Pos(),
+					"the block handed to "+role.fn+" is not X.Slice(p, _, p, _) for the origin p passed with it: the step accumulates its rotations at the wrong rows/columns of the full factors")
+				return true
+			})
+		})
+		org := params[role.origin]
+		for k, a := range accApps {
+			ok := false
+			for _, b := range blockApps {
+				bi := lin{org: 1}
+				for o, x := range b.i {
+					bi[o] += x
+				}
+				bj := lin{org: 1}
+				for o, x := range b.j {
+					bj[o] += x
+				}
+				if same(a.i, a.ci, bi, b.ci) && same(a.j, a.cj, bj, b.cj) {
+					ok = true
+				}
+			}
+			c.Check(ok, "C05.R4", cons, fmt.Sprintf("accumulated rotation #%d is applied at origin + block indices", k), a.pos,
+				"the rotation is accumulated with "+a.text+", which is not the block's origin plus the rows/columns the rotation was applied to in the block: the accumulated orthogonal factor no longer matches the reduced block, so the factors do not multiply back to the input")
 		}
 	}
 }
